@@ -8,9 +8,10 @@
     no-ops).  The same state record also carries the send halves (used by Model/StreamSM.v);
     this file only needs their presence ([stream_freed]) and [SendStream::reset]/[reset_acked].
 
-    [fx : bool] selects the code being modelled: [false] = the code before the two repairs
+    [fx : bool] selects the code being modelled: [false] = the code before the three repairs
     (F2: [Chunks::new] drops the stream on [IllegalOrderedRead]; N1: a stream that is both stopped
-    and reset is credited twice), [true] = the repaired code, which [run] follows.
+    and reset is credited twice; N3: a first FIN below the high-water mark is accepted),
+    [true] = the repaired code, which [run] follows.
     Fields [g_*] are ghost (never observed): sum of final ends of closed streams, sum of read
     credits granted, sum of window expansions.  [panic] records a failed checked subtraction. *)
 From Coq Require Import ZArith List Bool.
@@ -197,13 +198,13 @@ Definition STREAM_STATE_ERROR : Z := 5.
 Definition FINAL_SIZE_ERROR : Z := 6.
 
 (** [Recv::ingest]: (recv, new bytes, closed). *)
-Definition ingest (r : recv) (off len : Z) (fin : bool) (received max_data : Z)
+Definition ingest (fx : bool) (r : recv) (off len : Z) (fin : bool) (received max_data : Z)
   : res (recv * Z * bool) :=
   let e := off + len in
   if 2 ^ 62 <=? e then Err FLOW_CONTROL_ERROR
   else if match final_offset r with
           | Some f => (f <? e) || (fin && negb (e =? f))
-          | None => false
+          | None => fx && fin && (e <? r_end r)
           end then Err FINAL_SIZE_ERROR
   else match credit_consumed_by r e received max_data with
        | None => Err FLOW_CONTROL_ERROR
@@ -420,7 +421,7 @@ Definition queue_max_stream_id (s : st) : st * bool :=
 
 (** * Frames *)
 (** [StreamsState::received]: result [Ok should_transmit] / [Err code]. *)
-Definition received (id off len : Z) (fin : bool) (s : st) : st * res bool :=
+Definition received (fx : bool) (id off len : Z) (fin : bool) (s : st) : st * res bool :=
   match validate_receive_id id s with
   | Some c => (s, Err c)
   | None =>
@@ -430,7 +431,7 @@ Definition received (id off len : Z) (fin : bool) (s : st) : st * res bool :=
           let r := rview s slot in
           let s1 := set_recvm (aset id (SOpen r) (recvm s)) s in
           if negb (is_receiving r) then (s1, Ok false)
-          else match ingest r off len fin (data_recvd s) (local_max s) with
+          else match ingest fx r off len fin (data_recvd s) (local_max s) with
                | Err c => (s1, Err c)
                | Ok (r', nb, closed) =>
                    let s2 := set_data_recvd (sat_add (data_recvd s1) nb)
@@ -737,7 +738,7 @@ Definition init (sd mru mrb rw srw pmb pmu : Z) : st :=
 Definition step_core (fx : bool) (s : st) (op : list Z) : option (st * list Z * option Z * list Z) :=
   match op with
   | [1; id; off; len; fin] =>
-      let '(s', r) := received id off len (negb (fin =? 0)) (see id s) in
+      let '(s', r) := received fx id off len (negb (fin =? 0)) (see id s) in
       Some (note_tx r s', res_out r, Some id, [])
   | [2; id; code; final] =>
       let '(s', r) := received_reset fx id code final (see id s) in
@@ -795,4 +796,330 @@ Definition run (i : ops) : outs := run_with (step true) i.
 (** The code before the repairs (used by the [_refuted] witnesses). *)
 Definition run_unfixed (i : ops) : outs := run_with (step false) i.
 
-Definition oracle (i : ops) (o : outs) : bool := true.
+(** * Oracle: an independent ledger over the implementation's outputs
+
+    It does not use the model above.  From the ops fed and the observations returned it keeps,
+    per stream, the last stream probe, the bytes returned by reads, the largest end seen, the
+    largest MAX_STREAM_DATA emitted; and globally the configured windows and the last MAX_DATA /
+    MAX_STREAMS emitted.  After every op it checks the property's observable conclusions:
+    - nothing is accepted beyond an advertised limit ([end <= advertised MAX_STREAM_DATA],
+      [data_recvd <= local_max_data], stream index below the limit), a frame that must be
+      rejected is rejected with the right code and leaves every probe unchanged;
+    - accounting: [data_recvd] = sum of the largest ends seen; [bytes_read] = bytes returned;
+    - unread data [<= receive_window + shrink debt]; per stream [<= stream_receive_window];
+    - credit: [local_max_data <= W0 + expansions + consumed], every MAX_STREAM_DATA value
+      [<= bytes returned by reads + window], MAX_STREAMS [<= initial + streams seen fully closed],
+      advertised values never decrease. *)
+Definition NG : nat := 22.
+Definition NS : nat := 14.
+Definition zn (k : nat) (l : list Z) : Z := nth k l 0.
+
+Record ledger := mkLg {
+  lg_side : Z; lg_srw : Z; lg_w0 : Z; lg_mr0 : Z * Z;
+  lg_G : list Z;
+  lg_S : list (Z * list Z);
+  lg_rd : list (Z * Z);
+  lg_es : list (Z * Z);
+  lg_adv : list (Z * Z);
+  lg_md : Z; lg_ms : Z * Z;
+  lg_w : Z; lg_exp : Z }.
+
+Definition zget (k : Z) (m : list (Z * Z)) (d : Z) : Z :=
+  match alookup k m with Some v => v | None => d end.
+
+(** Stream probe of a stream never named so far. *)
+Definition fresh_S (lg : ledger) (id : Z) : list Z :=
+  let remote := negb (sid_init id =? lg_side lg) in
+  let d := sid_dir id in
+  let live_r := if remote then sid_index id <? pget d (zn 5 (lg_G lg), zn 6 (lg_G lg))
+                else (d =? 0) && (sid_index id <? zn 15 (lg_G lg)) in
+  let live_s := if remote then (d =? 0) && (sid_index id <? zn 5 (lg_G lg))
+                else sid_index id <? pget d (zn 15 (lg_G lg), zn 16 (lg_G lg)) in
+  [if live_r then 1 else 0; 0; -1; -1; 0; 0; 0; 0; if live_s then 1 else 0; 0; -1; 0; 0; 0].
+Definition last_S (lg : ledger) (id : Z) : list Z :=
+  match alookup id (lg_S lg) with Some s => s | None => fresh_S lg id end.
+
+(** Receive half normalised: None/Free slots are an open fresh [Recv]. *)
+Definition norm_recv (srw : Z) (s : list Z) : list Z :=
+  let slot := zn 0 s in
+  (* sent_max_stream_data (index 4) is compared with the ledger's advertised value instead *)
+  if (slot =? 1) || (slot =? 2) then [3; 0; -1; -1; 0; 0; 0]
+  else firstn 4 s ++ firstn 3 (skipn 5 s).
+
+Definition s_live (s : list Z) : bool := negb (zn 0 s =? 0).
+Definition s_receiving (s : list Z) : bool := s_live s && negb (zn 1 s =? 2).
+Definition s_final (s : list Z) : option Z :=
+  if (zn 0 s =? 3) && negb (zn 1 s =? 0) then Some (zn 2 s) else None.
+Definition s_end (s : list Z) : Z := if zn 0 s =? 3 then zn 5 s else 0.
+Definition s_read (s : list Z) : Z := if zn 0 s =? 3 then zn 6 s else 0.
+Definition s_stopped (s : list Z) : bool := (zn 0 s =? 3) && (zn 7 s =? 1).
+(** Bytes of the stream for which credit may have been issued. *)
+Definition s_consumed (es : Z) (s : list Z) : Z :=
+  if (zn 0 s =? 3) && negb (zn 7 s =? 1) && negb (zn 1 s =? 2) then zn 6 s
+  else if (zn 0 s =? 1) || (zn 0 s =? 2) then 0 else es.
+
+Fixpoint sum_consumed (lg : ledger) (ss : list (Z * list Z)) : Z :=
+  match ss with
+  | [] => 0
+  | (id, s) :: r => s_consumed (zget id (lg_es lg) 0) s + sum_consumed lg r
+  end.
+Fixpoint sum_snd (m : list (Z * Z)) : Z :=
+  match m with [] => 0 | (_, v) :: r => v + sum_snd r end.
+(** Remotely initiated streams of direction [d] whose last probe shows both halves absent. *)
+Fixpoint closed_count (lg : ledger) (d : Z) (ss : list (Z * list Z)) : Z :=
+  match ss with
+  | [] => 0
+  | (id, s) :: r =>
+      (if negb (sid_init id =? lg_side lg) && (sid_dir id =? d) && (zn 0 s =? 0) && (zn 8 s =? 0)
+          && (sid_index id <? pget d (zn 5 (lg_G lg), zn 6 (lg_G lg)))
+       then 1 else 0) + closed_count lg d r
+  end.
+
+Definition split_out (named : bool) (o : list Z) : list Z * list Z * list Z * list Z :=
+  let r := firstn 5 o in
+  let g := firstn NG (skipn 5 o) in
+  let rest := skipn (5 + NG) o in
+  if named then (r, g, firstn NS rest, skipn NS rest) else (r, g, [], rest).
+
+(** Checks that hold after every op. *)
+Definition check_global (lg : ledger) : bool :=
+  let g := lg_G lg in
+  let consumed := sum_consumed lg (lg_S lg) in
+  (zn 0 g <=? zn 1 g)
+  && ((U64MAX <=? zn 1 g) || (zn 1 g <=? lg_w0 lg + lg_exp lg + consumed))
+  && (zn 0 g - consumed <=? zn 2 g + zn 3 g)
+  && (zn 0 g =? sum_snd (lg_es lg))
+  && (zn 2 g =? lg_w lg)
+  && (zn 4 g =? lg_md lg) && (zn 7 g =? fst (lg_ms lg)) && (zn 8 g =? snd (lg_ms lg))
+  && (zn 5 g <=? fst (lg_mr0 lg) + closed_count lg 0 (lg_S lg))
+  && (zn 6 g <=? snd (lg_mr0 lg) + closed_count lg 1 (lg_S lg)).
+
+Definition check_stream (lg : ledger) (id : Z) (s : list Z) : bool :=
+  if zn 0 s =? 3 then
+    (zn 6 s =? zget id (lg_rd lg) 0)
+    && (zn 6 s <=? zn 5 s)
+    && (zn 5 s <=? zget id (lg_adv lg) (lg_srw lg))
+    && (zn 4 s =? zget id (lg_adv lg) (lg_srw lg))
+    && (match s_final s with Some f => zn 5 s <=? f | None => true end)
+    && (s_stopped s || (zn 1 s =? 2) || (zn 5 s - zn 6 s <=? lg_srw lg))
+  else true.
+
+(** Record the probes of an op. *)
+Definition note (lg : ledger) (g : list Z) (id : option Z) (s : list Z) (es_add : Z) : ledger :=
+  let lg1 := mkLg (lg_side lg) (lg_srw lg) (lg_w0 lg) (lg_mr0 lg) g (lg_S lg) (lg_rd lg)
+                  (lg_es lg) (lg_adv lg) (lg_md lg) (lg_ms lg) (lg_w lg) (lg_exp lg) in
+  match id with
+  | None => lg1
+  | Some i =>
+      (* ids that do not exist yet (beyond the stream limit / not opened) are not recorded *)
+      let exists_ := if sid_init i =? lg_side lg
+                     then sid_index i <? pget (sid_dir i) (zn 15 g, zn 16 g)
+                     else sid_index i <? pget (sid_dir i) (zn 5 g, zn 6 g) in
+      if negb exists_ then lg1 else
+      let es0 := zget i (lg_es lg) 0 in
+      let es1 := Z.max es0 (Z.max es_add
+                   (Z.max (s_end s) (match s_final s with Some f => if zn 1 s =? 2 then f else 0
+                                                  | None => 0 end))) in
+      mkLg (lg_side lg) (lg_srw lg) (lg_w0 lg) (lg_mr0 lg) g (aset i s (lg_S lg)) (lg_rd lg)
+           (aset i es1 (lg_es lg)) (lg_adv lg) (lg_md lg) (lg_ms lg) (lg_w lg) (lg_exp lg)
+  end.
+
+Definition set_rd (lg : ledger) (id v : Z) : ledger :=
+  mkLg (lg_side lg) (lg_srw lg) (lg_w0 lg) (lg_mr0 lg) (lg_G lg) (lg_S lg) (aset id v (lg_rd lg))
+       (lg_es lg) (lg_adv lg) (lg_md lg) (lg_ms lg) (lg_w lg) (lg_exp lg).
+Definition set_win (lg : ledger) (w e : Z) : ledger :=
+  mkLg (lg_side lg) (lg_srw lg) (lg_w0 lg) (lg_mr0 lg) (lg_G lg) (lg_S lg) (lg_rd lg)
+       (lg_es lg) (lg_adv lg) (lg_md lg) (lg_ms lg) w e.
+
+(** What a frame for stream [id] with end / final [e] must produce, from the ledger before it.
+    [Some c]: it must be rejected with code [c] ([0] = either FLOW_CONTROL or FINAL_SIZE);
+    [None]: no rejection required. *)
+Definition must_reject (lg : ledger) (id e : Z) (is_reset fin : bool) : option Z :=
+  let g := lg_G lg in
+  let s := last_S lg id in
+  if sid_init id =? lg_side lg then
+    if (sid_dir id =? 1) || (zn 15 g <=? sid_index id) then Some STREAM_STATE_ERROR
+    else if negb (s_live s) then None
+    else None
+  else if pget (sid_dir id) (zn 5 g, zn 6 g) <=? sid_index id then Some STREAM_LIMIT_ERROR
+  else None.
+
+Definition must_reject_live (lg : ledger) (id e : Z) (is_reset fin : bool) : option Z :=
+  let g := lg_G lg in
+  let s := last_S lg id in
+  if negb (s_live s) then None
+  else if negb is_reset && negb (s_receiving s) then None
+  else
+    let adv := zget id (lg_adv lg) (lg_srw lg) in
+    let new_bytes := Z.max 0 (e - s_end s) in
+    if negb is_reset && (2 ^ 62 <=? e) then Some FLOW_CONTROL_ERROR
+    else match s_final s with
+         | Some f =>
+             if is_reset then (if negb (e =? f) then Some FINAL_SIZE_ERROR else None)
+             else if (f <? e) || (fin && negb (e =? f)) then Some FINAL_SIZE_ERROR
+             else None
+         | None =>
+             if (is_reset || fin) && (e <? s_end s) then Some FINAL_SIZE_ERROR
+             else if (adv <? e) || (zn 1 g <? zn 0 g + new_bytes) then Some FLOW_CONTROL_ERROR
+             else None
+         end.
+
+Definition frame_check (lg : ledger) (id e : Z) (is_reset fin : bool) (r g s : list Z) : bool :=
+  let want := match must_reject lg id e is_reset fin with
+              | Some c => Some c
+              | None => must_reject_live lg id e is_reset fin
+              end in
+  let rejected := zn 0 r =? 1 in
+  (match want with
+   | Some c => rejected && (zn 1 r =? c)
+   | None => true
+   end)
+  && (if rejected then
+        (* a rejected frame changes nothing observable *)
+        lz_eqb g (lg_G lg)
+        && lz_eqb (norm_recv (lg_srw lg) s) (norm_recv (lg_srw lg) (last_S lg id))
+        && lz_eqb (firstn 5 (skipn 8 s)) (firstn 5 (skipn 8 (last_S lg id)))
+      else true).
+
+Fixpoint triples (l : list Z) : list (Z * Z * Z) :=
+  match l with a :: b :: c :: r => (a, b, c) :: triples r | _ => [] end.
+
+(** Control frames emitted: bounds and monotonicity; returns the updated ledger. *)
+Fixpoint ctrl_check (lg : ledger) (fs : list (Z * Z * Z)) : ledger * bool :=
+  match fs with
+  | [] => (lg, true)
+  | (k, a, v) :: r =>
+      if k =? 1 then
+        let v := a in
+        let consumed := sum_consumed lg (lg_S lg) in
+        let okf := (lg_md lg <=? v)
+                   && ((VARINT_MAX <=? v) || (v <=? lg_w0 lg + lg_exp lg + consumed)) in
+        let lg' := mkLg (lg_side lg) (lg_srw lg) (lg_w0 lg) (lg_mr0 lg) (lg_G lg) (lg_S lg)
+                        (lg_rd lg) (lg_es lg) (lg_adv lg) (Z.max v (lg_md lg)) (lg_ms lg)
+                        (lg_w lg) (lg_exp lg) in
+        let '(lg'', okr) := ctrl_check lg' r in (lg'', okf && okr)
+      else if k =? 2 then
+        let okf := (v <=? zget a (lg_rd lg) 0 + lg_srw lg) in
+        let lg' := mkLg (lg_side lg) (lg_srw lg) (lg_w0 lg) (lg_mr0 lg) (lg_G lg) (lg_S lg)
+                        (lg_rd lg) (lg_es lg)
+                        (aset a (Z.max v (zget a (lg_adv lg) (lg_srw lg))) (lg_adv lg))
+                        (lg_md lg) (lg_ms lg) (lg_w lg) (lg_exp lg) in
+        let '(lg'', okr) := ctrl_check lg' r in (lg'', okf && okr)
+      else if k =? 3 then
+        let okf := (pget a (lg_ms lg) <=? v)
+                   && (v <=? pget a (lg_mr0 lg) + closed_count lg a (lg_S lg)) in
+        let lg' := mkLg (lg_side lg) (lg_srw lg) (lg_w0 lg) (lg_mr0 lg) (lg_G lg) (lg_S lg)
+                        (lg_rd lg) (lg_es lg) (lg_adv lg) (lg_md lg) (pset a v (lg_ms lg))
+                        (lg_w lg) (lg_exp lg) in
+        let '(lg'', okr) := ctrl_check lg' r in (lg'', okf && okr)
+      else ctrl_check lg r
+  end.
+
+Definition oracle_step (lg : ledger) (op o : list Z) : ledger * bool :=
+  match op with
+  | [1; id; off; len; fin] =>
+      let '(r, g, s, _) := split_out true o in
+      let okf := frame_check lg id (off + len) false (negb (fin =? 0)) r g s in
+      let pre := last_S lg id in
+      let counted := if (zn 0 r =? 0) && s_receiving pre && negb (2 ^ 62 <=? off + len)
+                     then off + len else 0 in
+      let lg' := note lg g (Some id) s counted in
+      (lg', okf && check_global lg' && check_stream lg' id s)
+  | [2; id; code; final] =>
+      let '(r, g, s, _) := split_out true o in
+      let okf := frame_check lg id final true false r g s in
+      let pre := last_S lg id in
+      let counted := if (zn 0 r =? 0) && s_live pre then final else 0 in
+      let lg' := note lg g (Some id) s counted in
+      (lg', okf && check_global lg' && check_stream lg' id s)
+  | [3; id; ordered; budget] =>
+      let '(r, g, s, _) := split_out true o in
+      let got := if zn 0 r =? 0 then zn 1 r else 0 in
+      let lg1 := set_rd lg id (zget id (lg_rd lg) 0 + got) in
+      let lg' := note lg1 g (Some id) s 0 in
+      (lg', (0 <=? got) && (got <=? Z.max 0 budget)
+            && check_global lg' && check_stream lg' id s)
+  | [6; w] =>
+      let '(_, g, _, _) := split_out false o in
+      let lg1 := set_win lg w (lg_exp lg + Z.max 0 (w - lg_w lg)) in
+      let lg' := note lg1 g None [] 0 in
+      (lg', check_global lg')
+  | [7; _; _; _] =>
+      let '(_, g, _, l) := split_out false o in
+      let '(lg1, okc) := ctrl_check lg (triples l) in
+      let lg' := note lg1 g None [] 0 in
+      (lg', okc && check_global lg')
+  | [8; _] | [9; _] | [15] | [16; _] | [18] | [19; _] =>
+      let '(_, g, _, _) := split_out false o in
+      let lg' := note lg g None [] 0 in
+      (lg', check_global lg')
+  | _ :: id :: _ =>
+      let '(_, g, s, _) := split_out true o in
+      let lg' := note lg g (Some id) s 0 in
+      (lg', check_global lg' && check_stream lg' id s)
+  | _ => (lg, true)
+  end.
+
+Fixpoint oracle_from (lg : ledger) (i : ops) (o : outs) : bool :=
+  match i, o with
+  | [], [] => true
+  | op :: i', out :: o' =>
+      let '(lg', okk) := oracle_step lg op out in
+      okk && oracle_from lg' i' o'
+  | _, _ => false
+  end.
+
+Definition oracle (i : ops) (o : outs) : bool :=
+  match o with
+  | [[-999]] => true
+  | _ =>
+      match i, o with
+      | [0; sd; mru; mrb; rw; srw; pmb; pmu] :: i', o0 :: o' =>
+          let g0 := firstn NG (skipn 5 o0) in
+          let lg := mkLg sd srw rw (mrb, mru) g0 [] [] [] [] rw (mrb, mru) rw 0 in
+          check_global lg && oracle_from lg i' o'
+      | _, _ => true
+      end
+  end.
+
+(** Diagnostics: per-op verdicts of the oracle (not used by the check). *)
+Fixpoint oracle_trace_from (lg : ledger) (i : ops) (o : outs) : list bool :=
+  match i, o with
+  | op :: i', out :: o' =>
+      let '(lg', okk) := oracle_step lg op out in
+      okk :: oracle_trace_from lg' i' o'
+  | _, _ => []
+  end.
+Definition oracle_trace (i : ops) (o : outs) : list bool :=
+  match i, o with
+  | [0; sd; mru; mrb; rw; srw; pmb; pmu] :: i', o0 :: o' =>
+      let g0 := firstn NG (skipn 5 o0) in
+      let lg := mkLg sd srw rw (mrb, mru) g0 [] [] [] [] rw (mrb, mru) rw 0 in
+      check_global lg :: oracle_trace_from lg i' o'
+  | _, _ => []
+  end.
+
+Definition check_global_parts (lg : ledger) : list bool :=
+  let g := lg_G lg in
+  let consumed := sum_consumed lg (lg_S lg) in
+  [(zn 0 g <=? zn 1 g);
+   ((U64MAX <=? zn 1 g) || (zn 1 g <=? lg_w0 lg + lg_exp lg + consumed));
+   (zn 0 g - consumed <=? zn 2 g + zn 3 g);
+   (zn 0 g =? sum_snd (lg_es lg));
+   (zn 2 g =? lg_w lg);
+   (zn 4 g =? lg_md lg); (zn 7 g =? fst (lg_ms lg)); (zn 8 g =? snd (lg_ms lg));
+   (zn 5 g <=? fst (lg_mr0 lg) + closed_count lg 0 (lg_S lg));
+   (zn 6 g <=? snd (lg_mr0 lg) + closed_count lg 1 (lg_S lg))].
+Fixpoint ledger_after (lg : ledger) (i : ops) (o : outs) : ledger :=
+  match i, o with
+  | op :: i', out :: o' => ledger_after (fst (oracle_step lg op out)) i' o'
+  | _, _ => lg
+  end.
+Definition parts_after (i : ops) (o : outs) : list bool :=
+  match i, o with
+  | [0; sd; mru; mrb; rw; srw; pmb; pmu] :: i', o0 :: o' =>
+      let g0 := firstn NG (skipn 5 o0) in
+      let lg := mkLg sd srw rw (mrb, mru) g0 [] [] [] [] rw (mrb, mru) rw 0 in
+      check_global_parts (ledger_after lg i' o')
+  | _, _ => []
+  end.
